@@ -184,7 +184,9 @@ def run_check(pid, tier="quick", seed=0):
         if r.get("skipped"):
             skipped += 1
             continue
-        if r.get("nontrivial", True):
+        if "keys" in r:
+            keys.update(r["keys"])
+        elif r.get("nontrivial", True):
             keys.add(jhash(cases[i]))
         o = r.get("outcome")
         if o is not None:
